@@ -3,7 +3,7 @@
 (* RTU framing (serial), C06: CRC-16/MODBUS and the length derivation from *)
 (* function code and byte count.  Defined on the byte stream only.         *)
 (***************************************************************************)
-EXTENDS Naturals, Sequences, Bitwise
+EXTENDS Naturals, Sequences, Bitwise, SequencesExt
 
 RtuMaxFrame == 256
 RtuMaxPdu == 253
@@ -15,12 +15,8 @@ CrcShift(v, k) == IF k = 0 THEN v
 
 CrcTable == [i \in 0..255 |-> CrcShift(i, 8)]
 
-RECURSIVE CrcFold(_, _, _)
-CrcFold(bytes, i, acc) ==
-  IF i > Len(bytes) THEN acc
-  ELSE CrcFold(bytes, i + 1, (acc \div 256) ^^ CrcTable[(acc ^^ bytes[i]) % 256])
-
-Crc16(bytes) == CrcFold(bytes, 1, 65535)
+(* table driven, folded iteratively (FoldLeft has a Java implementation: no deep recursion) *)
+Crc16(bytes) == FoldLeft(LAMBDA acc, b : (acc \div 256) ^^ CrcTable[(acc ^^ b) % 256], 65535, bytes)
 
 (* unit + pdu + crc, low byte first *)
 RtuFrame(unit, pdu) ==
